@@ -4,6 +4,11 @@ manifest is valid at every commit)."""
 import json, os, sys
 
 CHECKS = {
+ "C12": ("exploration",
+         "bounded-exhaustive enumeration of link-bearing documents x attachment lists x hosts x widths; shown numbers parsed from the rendering and compared with SelectLink",
+         "Every HTML forest with <=3 (quick) / <=4 (thorough) nodes over 14 labels in which each link-bearing element has a unique target and label, Markdown/gemtext/plaintext line sequences, posts, activities and actors, attachment lists up to 2/3 of 5 kinds, 8 widths from 1 to 80: numbers shown are exactly 1..N once each, the number next to a label opens that label's target, every target is reachable, and min-int,-1,0,N+1,N+2,max-int open nothing without panicking.",
+         "Trusted: the label/number association (label text immediately before the number after removing blanks and decoration glyphs; underlined text for plain text); the independent walk over the x/net/html tree that lists link-bearing elements (a non-li child of a list is shown as a markup error, not a link); documents have fewer than ten numbered elements.",
+         "DESIGN.md §3 C12"),
  "C14": ("exploration",
          "bounded-exhaustive enumeration of style expressions x layout sequences, judged by an SGR state machine",
          "All 17^3 x 5 expressions f(g(h(leaf))) and 17^3 x 25 expressions f(g(x)+h(y)) over the exported style functions, each followed by every layout sequence of length <=1 (quick, 1.9e6 outputs) / <=2 (thorough, 2.7e7 outputs); per-letter attribute sets equal the union of the enclosing styles, nothing is active at any line end or at the end of the string, and layout never changes a surviving letter's attributes.",
